@@ -100,7 +100,7 @@ extern const char *CANARY_PROP;         /* additionally reported under this prop
 
 /* ----------------------------------------------------------------- world */
 #define MAXCMD 320
-#define MAXGRP 4
+#define MAXGRP 8
 #define MAXVAR 8
 
 enum { K_RUN = 0, K_READ = 1, K_WRITE = 2, K_TEST = 3 };
@@ -220,6 +220,8 @@ void ev_note(const char *fmt, ...) __attribute__((format(printf, 1, 2)));
 void ev_reset(void);
 void ev_dump(FILE *f, int last);
 
+void w_noise_group(unsigned per_mille);   /* adds a group with one event-only command and switches background event traffic on for run_quiet() */
+extern struct cat_command *NOISE_CMD; extern unsigned NOISE_PM;
 long run_quiet(long maxsteps);      /* service until OK with all input consumed; -1 if not reached */
 long quiet_bound(void);
 void w_describe(FILE *f);
